@@ -20,8 +20,9 @@ CONSTANTS
   DlOffs = {0, 1}
   MaxNow = 2
   Senders = {"u1"}
-  Recipients = {"u1", "feepool"}
+  Recipients = {"u1", "feepool", "module"}
   MaxSteps = 100
+  DonateAlso = {"module", "feepool"}
   WithUni = TRUE
 VIEW View
 INVARIANTS
@@ -39,4 +40,10 @@ PROPERTIES
   Act_C02_RemoveGivesAtLeast
   Act_C02_Supply
   Act_Rejected_NoEffect
+  Act_X01_WedgedForever
+  Act_X02_RouteBalanced
+  Act_X02_RoundTripNoGain
+  Act_X02_BlockedUntouched
+  Act_X02_ModuleOnlyGifts
+  Act_X02_DonateFrame
 CHECK_DEADLOCK FALSE
